@@ -63,9 +63,9 @@ theorem C05_zero_effect (db : DB) (c : Cmd) (hb : classifyLock db c = .timeout) 
 /-- **Effect of firing.** `doTimeOut` answers TIMEOUT under the request's own id on its own connection and removes the
 request from the queue: afterwards it can no longer be granted (grants are made only to queued requests,
 `Slock.C04.C04_grant_is_head`), and no wake pass runs (see C04's finding). -/
-theorem C05_fire_effect (db : DB) (w : Waiter) :
-    (fireTimeout db w).2 = [mkReply { w.cmd with conn := w.conn } RESULT_TIMEOUT (db.getKey w.cmd.key).locked 0] ∧
-      ∀ x ∈ allW (fireTimeout db w).1, x ∈ allW db :=
+theorem C05_fire_effect (db : DB) (key : Nat) (w : Waiter) :
+    (fireTimeout db key w).2 = [mkReply { w.cmd with conn := w.conn } RESULT_TIMEOUT (db.getKey key).locked 0] ∧
+      ∀ x ∈ allW (fireTimeout db key w).1, x ∈ allW db :=
   ⟨rfl, fun _ hx => mem_allW_fireTimeout hx⟩
 
 /-- **Not late — local step (`_partial`).** When the sweeper visits a request whose deadline is still ahead it re-arms
